@@ -1,7 +1,7 @@
 """C04 Any specification-valid classic file is read back exactly — encoder-generated layouts x header chunk boundaries x np."""
 import itertools, sys, os, copy
 sys.path.insert(0, os.path.dirname(os.path.dirname(os.path.abspath(__file__))))
-from engine import build, runner, cdf
+from engine import build, runner, cdf, fileck
 from engine.common import Check
 from engine.runner import Case
 from engine.bfs import cmp_sweep
@@ -41,6 +41,11 @@ def mkfile_schema(version, kind, filler=None):
     if kind == 'record2':
         vars_ = [T.Var('r1', D.NC_BYTE, [0, 1]), T.Var('f', D.NC_INT, [1]), T.Var('r2', D.NC_FLOAT, [0]), T.Var('g', D.NC_SHORT if version < 5 else D.NC_USHORT, [2])]
         return T.File(version, dims, gatts, vars_, 2)
+    if kind.startswith('onerec-'):
+        # exactly one record variable (records are then packed without padding), of a given type, 3 elements per record
+        xt = int(kind.split('-')[1])
+        vars_ = [T.Var('f', D.NC_BYTE, [2]), T.Var('r', xt, [0, 2], [T.Att('long_name', D.NC_CHAR, b'rec')])]
+        return T.File(version, dims, gatts, vars_, 3)
     raise ValueError(kind)
 
 
@@ -103,7 +108,14 @@ def build_case(name, raw, f, data, np, chunk=None, hints=None, safe=0):
     ctx['gets'] = []
     for i, v in enumerate(f.vars):
         mem = 'text' if v.xtype == D.NC_CHAR else D.XT_MEM[v.xtype]
-        ctx['gets'].append((i, c.op('*', 'get', f=0, form='var', v=i, coll=1, mem=mem)))
+        ctx['gets'].append((i, c.op('*', 'get', f=0, form='var', v=i, coll=1, mem=mem), None))
+        if v.is_record and f.numrecs > 0:
+            inner = [f.dims[d].size for d in v.dimids[1:]]
+            per = v.nelems_per_rec_or_total
+            for rec in range(f.numrecs):
+                ctx['gets'].append((i, c.op('*', 'get', f=0, form='vara', v=i, s=[rec] + [0] * len(inner), c=[1] + inner, coll=1, mem=mem), (rec * per, (rec + 1) * per)))
+            last = f.numrecs - 1
+            ctx['gets'].append((i, c.op('*', 'get', f=0, form='var1', v=i, s=[last] + [x - 1 for x in inner], coll=1, mem=mem), ((last + 1) * per - 1, (last + 1) * per)))
     ctx['close'] = c.op('*', 'close', f=0)
     c.op('*', 'ledger')
     return c, ctx
@@ -114,6 +126,9 @@ def judge(ck, name, c, ctx, r, f, data):
     if r.status != 'ok':
         ck.violation((r.status, 'open', first_frame(r.detail)), text, name + ': ' + r.detail[:700]); return
     m = model_from_cdf(f, data)
+    cdf.compute_shapes(f)
+    if f.hdr_len is None: f.hdr_len = len(cdf.encode_header(f))
+    f.begin_order_ok = True
     for k in r.ranks:
         o = r.r(k, ctx['open'])
         if o.rc != 0:
@@ -121,12 +136,20 @@ def judge(ck, name, c, ctx, r, f, data):
         d = cmp_sweep(m, r.r(k, ctx['sweep']).json())
         if d:
             ck.violation(('metadata', 'inq', d.split(':')[0]), text, '%s: rank %d: %s' % (name, k, d)); return
-        for i, ln in ctx['gets']:
+        # the library's own layout reports (header size and extent, variable offsets, record size) agree with the file
+        if f.begin_order_ok:
+            lo, _ = fileck.check_layout(f, r.r(k, ctx['sweep']).json())
+            lo = [x for x in lo if x[0].startswith('inq_')]
+            if lo:
+                ck.violation(('layout_report', 'inq', lo[0][0]), text, '%s: rank %d: %s' % (name, k, lo[0][1])); return
+        for i, ln, rng in ctx['gets']:
             g = r.r(k, ln)
+            what = 'get_var' if rng is None else 'get_vara/var1 of one record'
+            want = data[i] if rng is None else data[i][rng[0]:rng[1]]
             if g.rc != 0:
-                ck.violation(('rc', 'get_var', 'valid file'), text, '%s: rank %d get_var(%d) returned %d' % (name, k, i, g.rc)); return
-            if D.cmp_lists(data[i], g.vals()) >= 0 or len(data[i]) != len(g.vals()):
-                ck.violation(('value', 'get_var', 'valid file'), text, '%s: rank %d var %d read %s, encoded %s' % (name, k, i, g.vals()[:20], data[i][:20])); return
+                ck.violation(('rc', what, 'valid file'), text, '%s: rank %d %s(%d) returned %d' % (name, k, what, i, g.rc)); return
+            if D.cmp_lists(want, g.vals()) >= 0 or len(want) != len(g.vals()):
+                ck.violation(('value', what, 'valid file'), text, '%s: rank %d var %d elements %s read %s, encoded %s' % (name, k, i, rng, g.vals()[:20], want[:20])); return
         if r.rc(k, ctx['close']) != 0:
             ck.violation(('rc', 'close', 'valid file'), text, '%s: close returned %d' % (name, r.rc(k, ctx['close']))); return
     ck.outcomes.add(r.r(0, ctx['sweep']).get('json'))
@@ -147,6 +170,14 @@ def main(tier=None):
                     name = 'LAY-v%d-%s-%s-np%d-c%s-%s-s%d' % (ver, kind, label, np, chunk, 'hc' if hints else 'hi', safe)
                     c, ctx = build_case(name, raw, f, data, np, chunk, hints, safe)
                     jobs.append((name, c, ctx, f, data))
+    # (1b) exactly one record variable of every external type (packed records), read record by record
+    for ver in (1, 2, 5):
+        for xt in [1, 2, 3, 4, 5, 6] + ([7, 8, 9, 10, 11] if ver == 5 else []):
+            f = mkfile_schema(ver, 'onerec-%d' % xt); cdf.layout(f); data = gen_data(f); raw = cdf.encode(f, data)
+            for np, chunk in ((1, None), (2, 44)):
+                name = 'ONE-v%d-x%d-np%d' % (ver, xt, np)
+                c, ctx = build_case(name, raw, f, data, np, chunk)
+                jobs.append((name, c, ctx, f, data))
     # (2) every header token at every offset relative to a chunk end
     chunks = [36, 40, 44, 48, 52, 64, 100] if thorough else [36, 44, 64]
     for ver in (1, 2, 5):
@@ -173,7 +204,7 @@ def main(tier=None):
         judge(ck, name, c, ctx, r, f, data)
     ck.cov['distinct_nontrivial'] = len(set(j[1].ops[1] for j in jobs))
     ck.cov['rule'] = ('files produced by the independent encoder: 4 schemas x 3 formats x layout freedoms {gaps before/between variables, gap before the record section, vsize correct/0/stale/all-ones, '
-                      'ABSENT vs tag+0 empty lists, non-zero bytes in free space} x {np, header chunk size via hook, collective header read, safe mode}; every header token placed at every 4-byte offset '
+                      'ABSENT vs tag+0 empty lists, non-zero bytes in free space} x {np, header chunk size via hook, collective header read, safe mode}; a file with exactly one record variable for every external type of each format; every variable is read whole, record by record and at its last element; every header token placed at every 4-byte offset '
                       'relative to a chunk end for chunk sizes %s (filler attribute sweep) and around the real 256 KiB boundary; distinct_nontrivial = distinct input files' % chunks)
     ck.sample(jobs[0][1].text()[:1200]); ck.sample(jobs[len(jobs) // 2][1].text()[:1200])
     ck.assumptions += ['begins increasing in definition order within each section (as the property states)', 'hook PNETCDF_VERIF_HDR_CHUNK stands in for the hint nc_header_read_chunk_size, which the library parses but never stores']
